@@ -1884,6 +1884,20 @@ fn nested_scenario(m: &MDef, thorough: bool) -> Scenario {
         }
     }
 
+    // a chain of three rows through the self reference (P2 -> P1 -> P0), alone and next to another reference
+    for extra in [None, Some((4usize, 2usize, 1usize))] {
+        let mut rows = vec![mk(r, "r0", None, 0), mk(q_, "q0", Some(2), 1), mk(q_, "q1", None, 1)];
+        for i in 0..3 {
+            rows.push(mk(p, &format!("p{}", i), if i == 0 { Some(10) } else { None }, 5));
+        }
+        rows[4].refs[4].push(3);
+        rows[5].refs[4].push(4);
+        if let Some((row, rf, t)) = extra {
+            rows[row].refs[rf].push(t);
+        }
+        datasets.push(DataSet { rows });
+    }
+
     let e = &m.ents[p];
     let rix = |n: &str| e.refs.iter().position(|r| r.name == n).unwrap();
     let sub = |rn: &str, alias: Option<&str>, q: EQ| QF::Sub { r: rix(rn), alias: alias.map(|s| s.to_string()), q: Box::new(q) };
@@ -1992,6 +2006,12 @@ fn nested_scenario(m: &MDef, thorough: bool) -> Scenario {
     add("self|one-level", q_of(p, vec![fld(NAME), s1.clone()]));
     let s2 = QF::Sub { r: rix("slf"), alias: None, q: Box::new(q_of(p, vec![fld(NAME), s1.clone()])) };
     add("self|two-levels", q_of(p, vec![fld(NAME), s2]));
+    // the same reference followed twice, each level under its own alias
+    let a2 = QF::Sub { r: rix("slf"), alias: Some("b2".into()), q: Box::new(q_of(p, vec![fld(NAME)])) };
+    let a1 = QF::Sub { r: rix("slf"), alias: Some("b1".into()), q: Box::new(q_of(p, vec![fld(NAME), a2])) };
+    let mut q = q_of(p, vec![fld(NAME), a1]);
+    q.nullable = vec!["b1".into()];
+    add("self|two-levels-aliased", q);
     let mut q = q_of(p, vec![fld(NAME)]);
     q.filters.push(Filter { name: "slf".into(), op: Op::Ne, val: Operand::NullLit });
     add("self|ref-filter-notnull|unselected", q);
